@@ -62,13 +62,27 @@ datetime_ns = _DatetimeNS()
 class _RandomNS:
     def __init__(self):
         import random as _r
+        import threading as _t
         self._rng = _r.Random(0)
+        self._tl = _t.local()  # per-thread list of draws, while a caller observes them (C12: exact jitter)
 
     def seed(self, n):
         self._rng.seed(n)
 
     def random(self):
-        return self._rng.random()
+        r = self._rng.random()
+        draws = getattr(self._tl, "draws", None)
+        if draws is not None:
+            draws.append(r)
+        return r
+
+    def observe(self):
+        """Start recording this thread's draws; returns the list (stop with unobserve())."""
+        self._tl.draws = []
+        return self._tl.draws
+
+    def unobserve(self):
+        self._tl.draws = None
 
 
 random_ns = _RandomNS()
